@@ -6,6 +6,7 @@ C04.N   Optional values (registers / array entries) reach state writes only thro
         modulus < 1 raises before the computation
 C04.B/A branch predicates and arithmetic = reference semantics (evaluated on a grid)
 C04.S   dataflow signature of every classical handler = reference
+C04.M   the register/array store the handlers write through performs exactly the requested write once per path
 C04.E   the fault line reported is the counter read before the instruction; the failing path leaves the loop
 """
 from __future__ import annotations
@@ -677,6 +678,114 @@ def check_fault_line(ctx):
     ctx.check("C04.E", "_execute_commands:execution-inside-try", inside, "the instruction is not executed inside the try block", repo.loc(m, lp), trivial=True)
 
 
+SM = "netqasm.sdk.shared_memory"
+
+
+def _count_stores(fn, pred):
+    cfg = F.CFG(fn)
+    return cfg.count_on_paths(lambda st: F.events_in(st, pred))
+
+
+def check_memory_primitives(ctx):
+    """C04.M: the register / array store the handlers write through performs exactly the write it is asked for, once, on every non-raising path"""
+    repo = ctx.repo
+    m = repo.module(SM)
+    arrays = m.classes.get("Arrays")
+    rg = m.classes.get("RegisterGroup")
+    sh = m.classes.get("SharedMemory")
+    if arrays is None or rg is None or sh is None:
+        raise AnalysisError("shared_memory.Arrays/RegisterGroup/SharedMemory not found")
+
+    def store_pred(target_norm, value_norm):
+        def pred(n):
+            return isinstance(n, ast.Assign) and len(n.targets) == 1 and A.norm(n.targets[0]) == target_norm and (value_norm is None or A.norm(n.value) == value_norm)
+        return pred
+
+    def once(cls, meth, target, value, what):
+        fn = cls.methods.get(meth)
+        if fn is None:
+            ctx.error("C04.M", f"{cls.name}.{meth} not found")
+            return
+        ctx.fn(f"{cls.name}.{meth}")
+        # substitute parameter names
+        mn, mx = _count_stores(fn, store_pred(target, value))
+        ctx.check("C04.M", f"{cls.name}.{meth}:{what}", (mn, mx) == (1, 1),
+                  f"{cls.name}.{meth}: the store `{target} = {value or '<value>'}` happens between {mn} and {mx} times on its non-raising paths; the executor relies on it happening exactly once "
+                  f"(an early return or a conditional store changes what `{meth}` leaves in memory)", cls.loc(fn), sample={"primitive": f"{cls.name}.{meth}", "store": f"{target} = {value}", "min": mn, "max": mx})
+
+    f = arrays.methods.get("init_new_array")
+    if f is not None:
+        pa, pl = A.param_names(f)[1:3]
+        once(arrays, "init_new_array", f"self._arrays[{pa}]", f"[None]*{pl}", "fresh-undefined-array")
+    f = rg.methods.get("__setitem__")
+    if f is not None:
+        pi, pv = A.param_names(f)[1:3]
+        once(rg, "__setitem__", f"self._register[{pi}]", pv, "stores-value-at-index")
+    f = arrays.methods.get("_set_array")
+    if f is not None:
+        pa, pv = A.param_names(f)[1:3]
+        once(arrays, "_set_array", f"self._arrays[{pa}]", pv, "replaces-array")
+    # Arrays.__setitem__: array[index] = value on the array found at the address of the key
+    f = arrays.methods.get("__setitem__")
+    if f is not None:
+        ctx.fn("Arrays.__setitem__")
+        d = A.single_defs(f)
+        pk, pv = A.param_names(f)[1:3]
+        mn, mx = _count_stores(f, lambda n: isinstance(n, ast.Assign) and isinstance(n.targets[0], ast.Subscript) and A.norm(n.targets[0]) == "array[index]" and A.norm(n.value) == pv)
+        src_ok = A.norm(d.get("array", ast.Constant(value=0))) == "self._get_array(address)" and any(
+            isinstance(n, ast.Assign) and isinstance(n.targets[0], ast.Tuple) and A.norm(n.targets[0]) == "(address,index)" and A.norm(n.value) == f"self._extract_key({pk})" for n in ast.walk(f))
+        ctx.check("C04.M", "Arrays.__setitem__:stores-value-at-key", (mn, mx) == (1, 1) and src_ok,
+                  f"Arrays.__setitem__ does not store the value exactly once at [address, index] of its key (stores per path: {mn}..{mx}, key/array source ok: {src_ok})", arrays.loc(f), sample={"min": mn, "max": mx})
+    f = arrays.methods.get("__getitem__")
+    if f is not None:
+        ctx.fn("Arrays.__getitem__")
+        d = A.single_defs(f)
+        rets = [A.norm(A.expand(r.value, d)) for r in A.returns(f) if r.value is not None and not (isinstance(r.value, ast.Constant) and r.value.value is None)]
+        ok = rets == ["self._get_array(self._extract_key(key)[0])[self._extract_key(key)[1]]"] or rets == ["self._get_array(address)[index]"]
+        # simpler structural form: value = array[index]; return value, array from _get_array(address)
+        if not ok:
+            vals = [n for n in ast.walk(f) if isinstance(n, ast.Assign) and A.norm(n.targets[0]) == "value" and A.norm(n.value) == "array[index]"]
+            arr = [n for n in ast.walk(f) if isinstance(n, ast.Assign) and A.norm(n.targets[0]) == "array" and A.norm(n.value) == "self._get_array(address)"]
+            ok = len(vals) == 1 and len(arr) == 1 and any(isinstance(r.value, ast.Name) and r.value.id == "value" for r in A.returns(f))
+        ctx.check("C04.M", "Arrays.__getitem__:reads-value-at-key", ok, "Arrays.__getitem__ does not return array[index] of the array at the key's address", arrays.loc(f))
+    f = arrays.methods.get("_get_array")
+    if f is not None:
+        pa = A.param_names(f)[1]
+        rets = [A.norm(r.value) for r in A.returns(f)]
+        guard = any(isinstance(n, ast.If) and A.norm(n.test) == f"{pa}notinself._arrays" and G.always_raises(n.body) for n in f.body)
+        ctx.check("C04.M", "Arrays._get_array:own-array-or-raise", rets == [f"self._arrays[{pa}]"] and guard, "Arrays._get_array does not return self._arrays[address] / raise for an unknown address", arrays.loc(f))
+    f = rg.methods.get("__getitem__")
+    if f is not None:
+        pi = A.param_names(f)[1]
+        rets = [A.norm(r.value) for r in A.returns(f)]
+        ctx.check("C04.M", "RegisterGroup.__getitem__:value-at-index-or-None", rets in ([f"self._register.get({pi})"], [f"self._register.get({pi},None)"]), f"RegisterGroup.__getitem__ returns {rets}", rg.loc(f))
+    # SharedMemory writers used by ret_reg / ret_arr
+    f = sh.methods.get("set_register")
+    if f is not None:
+        pv = A.param_names(f)[2]
+        mn, mx = _count_stores(f, lambda n: isinstance(n, ast.Assign) and A.norm(n.targets[0]) == "self._registers[reg.name][reg.index]" and A.norm(n.value) == pv)
+        ctx.check("C04.M", "SharedMemory.set_register:stores-value", (mn, mx) == (1, 1), f"SharedMemory.set_register stores the value {mn}..{mx} times per path", sh.loc(f))
+    f = sh.methods.get("set_array_part")
+    if f is not None:
+        pa, pi, pv = A.param_names(f)[1:4]
+        mn, mx = _count_stores(f, lambda n: isinstance(n, ast.Assign) and A.norm(n.targets[0]) == f"self._arrays[{pa},{pi}]" and A.norm(n.value) == pv)
+        ctx.check("C04.M", "SharedMemory.set_array_part:stores-value", (mn, mx) == (1, 1), f"SharedMemory.set_array_part stores the value {mn}..{mx} times per path", sh.loc(f))
+    f = sh.methods.get("init_new_array")
+    if f is not None:
+        ctx.fn("SharedMemory.init_new_array")
+        cfg = F.CFG(f)
+        mn, mx = cfg.count_on_paths(lambda st: F.events_in(st, lambda n: isinstance(n, ast.Call) and A.norm(n.func) == "self._arrays.init_new_array"))
+        sets = [n for n in ast.walk(f) if isinstance(n, ast.Call) and A.norm(n.func) == "self._arrays._set_array"]
+        ok = (mn, mx) == (1, 1) and len(sets) == 1 and [A.norm(a) for a in sets[0].args] == ["address", "new_array"] and any(pol and A.norm(t) == "new_arrayisnotNone" for t, pol in G.enclosing_tests(f, sets[0]))
+        ctx.check("C04.M", "SharedMemory.init_new_array:declares-then-fills", ok, "SharedMemory.init_new_array does not declare the array once and copy the returned array into it when one is given", sh.loc(f))
+    su = m.functions.get("setup_registers")
+    ok = False
+    if su is not None:
+        r = A.returns(su)
+        ok = len(r) == 1 and isinstance(r[0].value, ast.DictComp) and A.norm(r[0].value.generators[0].iter) == "RegisterName" and A.norm(r[0].value.value) == "RegisterGroup()" and not r[0].value.generators[0].ifs
+    ctx.check("C04.M", "setup_registers:one-group-per-bank", ok, "setup_registers does not create one fresh RegisterGroup per register bank", repo.loc(m, su) if su else "")
+
+
 def run(ctx):
     table = handler_table(ctx)
     check_dispatch(ctx, table)
@@ -684,6 +793,7 @@ def run(ctx):
     check_none_guards(ctx, table)
     check_predicates(ctx)
     check_signatures(ctx, table)
+    check_memory_primitives(ctx)
     check_fault_line(ctx)
 
 
@@ -720,6 +830,10 @@ SEEDS = [
          old="        output = method(self, subroutine_id, instr)\n        if isinstance(output, GeneratorType):\n            output = yield from output\n        self._program_counters[subroutine_id] += 1\n",
          new="        self._program_counters[subroutine_id] += 1\n        output = method(self, subroutine_id, instr)\n        if isinstance(output, GeneratorType):\n            output = yield from output\n"),
     dict(id="c04-set-register-wrong-bank", file=X, expect="C04.S", construct="_set_register", old="        self._registers[app_id][register.name][register.index] = value", new="        self._registers[app_id][RegisterName.R][register.index] = value"),
+]
+SEEDS += [
+    dict(id="c04-array-reuse", file="netqasm/sdk/shared_memory.py", expect="C04.M", construct="init_new_array", old="        _assert_within_width(address, ADDRESS_BITS)\n        self._arrays[address] = [None] * length", new="        _assert_within_width(address, ADDRESS_BITS)\n        if address in self._arrays and len(self._arrays[address]) == length:\n            return\n        self._arrays[address] = [None] * length"),
+    dict(id="c04-register-store-skips-zero", file="netqasm/sdk/shared_memory.py", expect="C04.M", construct="RegisterGroup.__setitem__", old="        _assert_within_width(value, ADDRESS_BITS)\n        self._register[index] = value", new="        _assert_within_width(value, ADDRESS_BITS)\n        if value:\n            self._register[index] = value"),
 ]
 BENIGN = [
     dict(id="c04-benign-assert-form", file=X, old="        if value is None:\n            raise RuntimeError(f\"value in register {register} is not defined\")\n", new="        assert value is not None, f\"value in register {register} is not defined\"\n"),
